@@ -97,7 +97,7 @@ RestoresOk(r, op, arg, out) ==
 ApplyEffOk(r) ==
   LET out == V(r.m, r.ex) IN
   /\ HasReg(r.src) /\ SameShape(out, NCells) /\ Len(r.x) = memo.fg.R * memo.fg.N
-  /\ out = ApplyEffS(memo.fg, memo.cells, Reg(r.src), r.x, IF r.apply THEN 1 ELSE -1)
+  /\ \A i \in 1..NCells : ValAt(out, i) = ApplyEffAt(memo.fg, memo.cells, Reg(r.src), r.x, IF r.apply THEN 1 ELSE -1, i)
   /\ RestoresOk(r, "eff", r.x, out)
 ApplyGeoOkT(r) ==
   LET out == V(r.m, r.ex)  G == V(r.gm, r.ge) IN
@@ -120,9 +120,9 @@ FanSumsOkT(r) ==
 \* to the iteration must be those of model * eff * eff.
 IterEffOk(r) ==
   LET out == V(r.m, r.ex)  S == V(r.sm, r.se)  n == memo.fg.R * memo.fg.N
-      D == ApplyEffS(memo.fg, memo.cells, Reg(r.model), r.x, 1)
   IN /\ HasReg(r.model) /\ SameShape(out, n) /\ SameShape(S, n) /\ Len(r.x) = n
-     /\ FanSumsOk(memo.fg, memo.raOff, D, S)                     \* hypothesis (else the line is not explained)
+     \* hypothesis (else the line is not explained): S = fan sums of model * eff * eff
+     /\ FanSumsOkF(memo.fg, memo.raOff, LAMBDA i : ApplyEffAt(memo.fg, memo.cells, Reg(r.model), r.x, 1, i), S)
      /\ out = EffOfExp(r.x)                                      \* fixed point (theorem F1: the update relation returns it)
 \* geometric factors: data = model * factor(class) with factors constant on classes; the update
 \* (make_geo_data of the data, then iterate_geo_norm against the model) returns the factor for every
@@ -131,7 +131,7 @@ IterGeoOk(r) ==
   LET out == V(r.m, r.ex)  G == V(r.gm, r.ge)  M == Reg(r.model)  D == Reg(r.data) IN
   /\ HasReg(r.model) /\ HasReg(r.data) /\ SameShape(out, Len(memo.slots)) /\ SameShape(G, Len(memo.slots))
   /\ ClassConsistent(G, memo.slotsOf)                             \* hypotheses
-  /\ D = ApplyGeoS(M, G, memo.slotsOf)
+  /\ SameShape(D, NCells) /\ \A i \in 1..NCells : ValAt(D, i) = ApplyGeoAt(M, G, memo.slotsOf, i)
   /\ \A n \in 1..Len(memo.slots) :
         (IsCell(memo.fg, memo.slots[n]) /\ \A i \in memo.cellsOf[n] : M.m[i] # 0) => ValAt(out, n) = ValAt(G, n)
 \* block factors: the same with the block pairs (factors symmetric in the two blocks)
@@ -139,7 +139,7 @@ IterBlockOk(r) ==
   LET out == V(r.m, r.ex)  B == V(r.bm, r.be)  M == Reg(r.model)  D == Reg(r.data)  nb == Len(memo.bcells) IN
   /\ HasReg(r.model) /\ HasReg(r.data) /\ SameShape(out, nb) /\ SameShape(B, nb)
   /\ BlockSymmetric(memo.bcells, memo.blkOff, memo.bg, B)         \* hypotheses
-  /\ D = ApplyBlockS(g, memo.cells, memo.blkOff, M, B)
+  /\ SameShape(D, NCells) /\ \A i \in 1..NCells : ValAt(D, i) = ApplyBlockAt(g, memo.cells, memo.blkOff, M, B, i)
   /\ \A n \in 1..nb :
         LET cs == { i \in 1..NCells : BlockOfCell(g, memo.cells[i]) \in { memo.bcells[n], SwapCell(memo.bcells[n]) } } IN
         (cs # {} /\ \A i \in cs : M.m[i] # 0) => ValAt(out, n) = ValAt(B, n)
@@ -167,6 +167,7 @@ KLStepOk(r) == KLShape(r) /\ KLOnceOk(r) /\ KLLibOk(r)
 Explains(r) ==
   CASE r.e = "Config" -> ConfigBasics(r)
     [] r.e = "ConfigRejected" -> FALSE
+    [] r.e = "Load" -> SameShape(V(r.m, r.ex), NCells)      \* a register filled by the driver (an input)
     [] r.e = "MakeFan" -> MakeFanOk(r)
     [] r.e = "SetFan" -> SetFanOk(r)
     [] r.e = "ApplyEff" -> ApplyEffOk(r)
@@ -189,7 +190,7 @@ Classify(r) ==
   ELSE "new"
 
 Init == l = 1 /\ g = NoCfg /\ memo = NoMemo /\ regs = << >> /\ prov = << >> /\ kl = [has |-> FALSE] /\ bad = << >>
-Writes(r) == r.e \in {"MakeFan", "ApplyEff", "ApplyGeo", "ApplyBlock"}
+Writes(r) == r.e \in {"MakeFan", "ApplyEff", "ApplyGeo", "ApplyBlock", "Load"}
 Next ==
   /\ l <= Len(TraceLog)
   /\ LET r == TraceLog[l]
